@@ -163,8 +163,19 @@ def _run_main(mainf, args):
             return out.getvalue() + '\nEXC %r' % (e,)
 
 
+def ext_variants():
+    """Every upper/lower-case spelling of the two tape extensions bin2tap writes."""
+    import itertools
+    out = []
+    for ext in ('tap', 'pzx'):
+        for bits in itertools.product((0, 1), repeat=3):
+            out.append(''.join(c.upper() if b else c for c, b in zip(ext, bits)))
+    return out
+
+
 def loadback_case(args):
-    seed, k = args
+    seed, k = args[0], args[1]
+    force_ext = args[2] if len(args) > 2 else None
     from skoolkit import bin2tap, tap2sna
     from skoolkit.snapshot import Snapshot
     rnd = random.Random('%s/%s' % (seed, k))
@@ -179,6 +190,8 @@ def loadback_case(args):
         start = rnd.choice((org, org + rnd.randrange(L)))
         use_clear = rnd.random() < .3
         ext = rnd.choice(('tap', 'pzx'))
+        if force_ext:
+            ext = force_ext
         args = ['-o', str(org), '-s', str(start)]
         stack = None
         if use_clear:
@@ -237,8 +250,17 @@ def run(tier):
     quick = tier == 'quick'
     n = 32 if quick else 1500
     t0 = time.time()
+    exts = ext_variants()
     with Pool(common.NCPU) as p:
         res = p.map(loadback_case, [(common.seed(), k) for k in range(n)], chunksize=1)
+        # E: the writer bin2tap picks and the reader tap2sna picks agree for every spelling of the extension
+        res_e = p.map(loadback_case, [(common.seed(), 1000 + i, e) for i, e in enumerate(exts)], chunksize=1)
+    bad_e = [r for r in res_e if r]
+    rep.add_bulk(len(exts) - len(bad_e), 'exhaustive', 0, 'skoolkit.bin2tap.run / skoolkit.tap2sna (tape format chosen from the file name)', n=len(exts))
+    rep.exhaustive.append({'domain': 'upper/lower-case spellings of the output extensions .tap and .pzx (format written == format read)', 'size': len(exts), 'visited': len(exts), 'complete': True})
+    for e, r in zip(exts, res_e):
+        if r:
+            rep.violation('C12/extension-case/%s' % e.lower(), 'bin2tap -> tap2sna with output name x.%s: %s %s' % (e, r[0], r[2]), {'case': {'args': r[1], 'extension': e}, 'observed': r[2]})
     bad = [r for r in res if r]
     rep.bounded.append({'function': 'skoolkit.bin2tap.main -> skoolkit.tap2sna.main', 'contract': 'loaded snapshot: memory == binary at ORG (bar 14 stack bytes), PC == START, SP == STACK',
                         'bound': '%d generated configurations (ORG/START/STACK incl. every partial stack overlap, CLEAR, screen, tap/pzx)' % n, 'evaluations': n})
